@@ -560,6 +560,14 @@ fn c07(ctx: &Ctx, calls: &[CallRec], exchanges: &[Exchange], records: &[Record])
                 }
             }
         }
+        // the URI the client built leads to the endpoint it was built for
+        if !damaging(&ex.req_fired) && ex.routed != Some(call.ep) && !matches!(ex.server, ServerOut::NotSent) {
+            ctx.violation(
+                "C07",
+                "request_does_not_reach_its_endpoint",
+                format!("{}: {} {} is routed to {:?}", who, ex.wire.method, clip(uri), ex.routed.map(|i| format!("{}.{}", ir().eps[i].service, ir().eps[i].name))),
+            );
+        }
         // decoding the URI on the server side returns the originals - it does not refuse them:
         // nothing was done to this request, so an error naming a path / query argument means the
         // server could not read back what the client wrote
